@@ -2,6 +2,7 @@ package harness
 
 import (
 	"bytes"
+	"context"
 	"crypto/tls"
 	"fmt"
 	"net"
@@ -557,8 +558,30 @@ func c15Handshake(w *W) {
 func c15WS(w *W) {
 	kind := allKinds[w.Choose(simrt.SShape, len(allKinds))]
 	role := []string{"listen", "dial"}[w.Choose(simrt.SShape, 2)]
+	// engine R: real loopback sockets. engine B: the ws / wss endpoint code,
+	// gorilla and net/http on the simulated network under the decided schedule
+	tran := "ws"
+	host := loopIP + ":0"
+	var cliTLS, srvTLS *tls.Config
+	if !w.Real {
+		tran = []string{"ws", "wss"}[w.Choose(simrt.SShape, 2)]
+		host = NetKey(w.Addr("tcp"))
+		w.UseNet(NetCfg{Segment: w.Choose(simrt.SShape, 2) == 0, BufCap: []int{0, 64, 1000}[w.Choose(simrt.SShape, 3)]})
+		if tran == "wss" {
+			srvTLS, cliTLS = simTLS()
+		}
+	}
+	wsDialer := func(sub string) *websocket.Dialer {
+		d := &websocket.Dialer{Subprotocols: []string{sub}, TLSClientConfig: cliTLS}
+		if !w.Real {
+			d.NetDialContext = func(ctx context.Context, network, addr string) (net.Conn, error) {
+				return curNet.Dial(NetKey("tcp://" + addr))
+			}
+		}
+		return d
+	}
 	w.SetShape("kind", kind)
-	w.SetShape("tran", "ws")
+	w.SetShape("tran", tran)
 	w.SetShape("role", role)
 	s := w.Sock(kind)
 	defer s.Close()
@@ -576,7 +599,8 @@ func c15WS(w *W) {
 	})
 	var ws *websocket.Conn
 	if role == "listen" {
-		l, err := s.NewListener("ws://"+loopIP+":0/sp", nil)
+		laddr := tran + "://" + host + "/sp"
+		l, err := s.NewListener(laddr, w.EpOpts(laddr, true, nil))
 		if err == nil {
 			// listener options an application may set before listening: none
 			// of them changes the mapping
@@ -597,13 +621,13 @@ func c15WS(w *W) {
 		}
 		url := l.Address()
 		// a client offering another sub-protocol is refused
-		bad := &websocket.Dialer{Subprotocols: []string{"bogus.sp.nanomsg.org"}}
+		bad := wsDialer("bogus.sp.nanomsg.org")
 		if c, _, err := bad.Dial(url, nil); err == nil {
 			c.Close()
 			w.Failf("C15/ws-wrong-subprotocol-accepted", "%s listener accepted a WebSocket client that offered only bogus.sp.nanomsg.org", kind)
 			return
 		}
-		good := &websocket.Dialer{Subprotocols: []string{info.SelfName + ".sp.nanomsg.org"}}
+		good := wsDialer(info.SelfName + ".sp.nanomsg.org")
 		c, _, err := good.Dial(url, nil)
 		if err != nil {
 			w.Failf("C15/ws-conforming-client-refused", "%s listener refused a client offering %s.sp.nanomsg.org: %v", kind, info.SelfName, err)
@@ -619,10 +643,24 @@ func c15WS(w *W) {
 		offered := make(chan []string, 1)
 		got := make(chan *websocket.Conn, 1)
 		up := websocket.Upgrader{CheckOrigin: func(*http.Request) bool { return true }}
-		ln, err := net.Listen("tcp", loopIP+":0")
+		var ln net.Listener
+		var err error
+		if w.Real {
+			ln, err = net.Listen("tcp", loopIP+":0")
+		} else {
+			var sl *NetListener
+			if sl, err = curNet.Listen(host); err == nil {
+				ta, _ := net.ResolveTCPAddr("tcp", host)
+				sl.naddr = ta
+				ln = sl
+			}
+		}
 		if err != nil {
 			w.Failf("HARNESS/listen", "%v", err)
 			return
+		}
+		if srvTLS != nil {
+			ln = tls.NewListener(ln, srvTLS)
 		}
 		srv := &http.Server{Handler: http.HandlerFunc(func(rw http.ResponseWriter, r *http.Request) {
 			sp := websocket.Subprotocols(r)
@@ -636,26 +674,40 @@ func c15WS(w *W) {
 				got <- c
 			}
 		})}
-		go srv.Serve(ln)
+		w.Go("ws server", func() { _ = srv.Serve(ln) })
 		w.OnCleanup(func() { srv.Close() })
-		if err := s.DialOptions("ws://"+ln.Addr().String()+"/sp", map[string]interface{}{mangos.OptionDialAsynch: true}); err != nil {
+		daddr := tran + "://" + ln.Addr().String() + "/sp"
+		if err := s.DialOptions(daddr, w.EpOpts(daddr, false, map[string]interface{}{mangos.OptionDialAsynch: true})); err != nil {
 			w.Failf("HARNESS/dial", "%v", err)
 			return
 		}
-		select {
-		case sp := <-offered:
-			want := info.PeerName + ".sp.nanomsg.org"
-			if len(sp) != 1 || sp[0] != want {
-				w.Failf("C15/ws-subprotocol-offer:"+kind, "%s dialling over WebSocket offered %q, the mapping requires %q", kind, sp, want)
-				return
+		// (30 s: wall clock in engine R, simulated in engine B)
+		var sp []string
+		gotOffer := false
+		for i := 0; i < 3000 && !gotOffer; i++ {
+			select {
+			case sp = <-offered:
+				gotOffer = true
+			default:
+				w.Sleep(10 * time.Millisecond)
 			}
-		case <-time.After(30 * time.Second):
+		}
+		if !gotOffer {
 			w.Failf("HARNESS/dial", "no WebSocket request arrived")
 			return
 		}
-		select {
-		case ws = <-got:
-		case <-time.After(30 * time.Second):
+		if want := info.PeerName + ".sp.nanomsg.org"; len(sp) != 1 || sp[0] != want {
+			w.Failf("C15/ws-subprotocol-offer:"+kind, "%s dialling over WebSocket offered %q, the mapping requires %q", kind, sp, want)
+			return
+		}
+		for i := 0; i < 3000 && ws == nil; i++ {
+			select {
+			case ws = <-got:
+			default:
+				w.Sleep(10 * time.Millisecond)
+			}
+		}
+		if ws == nil {
 			w.Failf("HARNESS/dial", "upgrade did not complete")
 			return
 		}
@@ -664,7 +716,7 @@ func c15WS(w *W) {
 	// (wall clock: a best-effort Send before the pipe is attached would be
 	// dropped, and look like a frame that never came)
 	for i := 0; wsAttached.Load() == 0 && i < 3000; i++ {
-		time.Sleep(10 * time.Millisecond)
+		w.Sleep(10 * time.Millisecond)
 	}
 	if wsAttached.Load() == 0 {
 		w.Failf("C15/conforming-peer-not-attached:"+kind, "%s over ws (%s): the upgrade completed with the right sub-protocol, no pipe was attached within 30s", kind, role)
@@ -725,6 +777,7 @@ func c15WS(w *W) {
 func init() {
 	register(&Scenario{Name: "wire-messages-real-transports", Prop: "C15", Engine: "R", Weight: 1, Run: c15WireReal})
 	register(&Scenario{Name: "websocket-mapping", Prop: "C15", Engine: "R", Weight: 1, Run: c15WS})
+	register(&Scenario{Name: "websocket-mapping-sim", Prop: "C15", Horizon: time.Hour, Weight: 3, Run: c15WS})
 	register(&Scenario{Name: "wire-messages", Prop: "C15", Weight: 9, Horizon: time.Hour, Run: c15Wire})
 	register(&Scenario{Name: "handshake-deviation-grid", Prop: "C15", Horizon: time.Hour, Weight: 9, Run: c15Handshake})
 }
